@@ -222,6 +222,17 @@ func (vc *VC) instr(fr *Frame, st *State, ins ssa.Instruction) {
 			// a goroutine running a function on the effect-free list touches nothing the contracts speak about
 			break
 		}
+		if c := x.Call.StaticCallee(); c != nil {
+			// ... and so does one whose contract says "modifies nothing"
+			if con := vc.P.contractOf(c); con != nil && con.HasMod && len(con.Modifies) == 0 {
+				con.Used = true
+				vc.usedContracts[con.Pkg+"::"+con.Func] = true
+				if con.opt("trusted") {
+					vc.trusted[con.Pkg+"::"+con.Func] = true
+				}
+				break
+			}
+		}
 		vc.havocAll(st)
 	case *ssa.Return:
 		var rs []Val
